@@ -228,7 +228,14 @@ pub fn world_cfg_strategy(p: &CfgProfile) -> BoxedStrategy<WorldCfg> {
                     None => prop_oneof![3 => Just(false), 1 => Just(true)].boxed(),
                 },
             )
-                .prop_map(move |(vamms, maint, extra, liq_fee, partial_ratio, fund_balance, wl, real_feed)| WorldCfg {
+                .prop_map(move |(mut vamms, maint, extra, liq_fee, partial_ratio, fund_balance, wl, real_feed)| {
+                    // the registry holds at most three vAMMs: a fourth one starts unregistered
+                    for (i, v) in vamms.iter_mut().enumerate() {
+                        if i >= 3 {
+                            v.registered = false;
+                        }
+                    }
+                    WorldCfg {
                     native,
                     decimals,
                     real_feed,
@@ -242,6 +249,7 @@ pub fn world_cfg_strategy(p: &CfgProfile) -> BoxedStrategy<WorldCfg> {
                     poor_balance: 3 * d,
                     whitelist_whale: wl && p.caps,
                     alien: p.alien,
+                    }
                 })
         })
         .boxed()
@@ -249,7 +257,7 @@ pub fn world_cfg_strategy(p: &CfgProfile) -> BoxedStrategy<WorldCfg> {
 
 pub fn op_strategy(w: &Weights) -> BoxedStrategy<Op> {
     let t = || 0u8..5;
-    let v = || 0u8..3;
+    let v = || 0u8..4;
     let mut alts: Vec<(u32, BoxedStrategy<Op>)> = vec![];
     let mut add = |wt: u32, s: BoxedStrategy<Op>| {
         if wt > 0 {
